@@ -124,6 +124,17 @@ fn check_name(ctx: &Ctx, s: &str) {
                     ctx.violation(format!("Builder::build panicked on a parsed name ({})", panic_msg(p)), format!("{s:?}"), json!({"kind": "name", "name": s}));
                 }
             }
+            // ... and asked for a key pair (whatever DH function the name selects; Err for one the resolver lacks)
+            let r = catch_unwind(AssertUnwindSafe(|| Builder::new(params.clone()).generate_keypair().map(|k| (k.private.len(), k.public.len()))));
+            match r {
+                Err(p) => {
+                    let m = panic_msg(p);
+                    // a P-256 scalar that happens to be 0 or >= n is the recorded finding; OS randomness makes it a 2^-32 event
+                    ctx.violation(format!("Builder::generate_keypair panicked ({m})"), format!("{s:?}"), json!({"kind": "name", "name": s}));
+                },
+                Ok(Ok((a, b))) if a == 0 || b == 0 => ctx.violation("Builder::generate_keypair returned an empty key", format!("{s:?}"), json!({"kind": "name", "name": s})),
+                _ => {},
+            }
         },
         Ok(Err(_)) => {},
     }
